@@ -225,7 +225,7 @@ impl<'a> G<'a> {
             bump(&mut self.c, "probe:msm_with_unreduced_scalars");
         }
         // every scalar of the input short (top bytes zero): an implementation may size its work from the longest one
-        let short_len = if !unreduced_mode && self.rng.chance(1, 8) { 1 + self.rng.below(31) as usize } else { 32 };
+        let short_len = if !unreduced_mode && self.rng.chance(1, if (500..800).contains(&n) { 3 } else { 8 }) { 1 + self.rng.below(31) as usize } else { 32 };
         if short_len < 32 {
             bump(&mut self.c, "probe:msm_all_scalars_short");
         }
